@@ -145,12 +145,22 @@ Lemma resolves_enum : forall D n j r q fl p t fi,
 Proof. intros. unfold resolves, ref_resolves. cbn [f_type]. now apply resolves_local. Qed.
 
 (* scalar and key fields carry no reference *)
+Definition is_ref_item (i : ikind) : bool :=
+  match i with IObject _ | IOneof _ | IEnum _ => true | _ => false end.
 Definition is_ref_field (u : ufield) : bool :=
-  match uf_kind u with KObject _ | KOneof _ | KEnum _ => true | _ => false end.
+  match uf_kind u with
+  | KObject _ | KOneof _ | KEnum _ => true
+  | KArray i => is_ref_item i
+  | KMap i => is_ref_item i
+  | _ => false
+  end.
 Lemma resolves_ufield_scalar : forall D u, is_ref_field u = false -> resolves D (of_ufield u) = true.
-Proof. intros D [n [pt k|nm|nm|nm|p f t] r o] H; try reflexivity; discriminate. Qed.
+Proof.
+  intros D [n [pt k|nm|nm|nm|p f t|tn k|i|i] r o] H; try reflexivity; try discriminate;
+    destruct i; try reflexivity; discriminate.
+Qed.
 
-(* what the user's own object references must name for the file to compile *)
+(* what the user's own object references must name for the file to convert *)
 Definition user_refs_ok (e : entity) (D : list (bool * bytes)) : bool :=
   forallb (fun u => resolves D (of_ufield u)) (all_ufields e).
 
@@ -442,25 +452,25 @@ Qed.
 (* the compiler accepts what entityNode.run accepts as soon as the user's fields are fine *)
 Theorem compile_expand : forall e,
   (forall fl, user_refs_ok e (defined (expand_with e fl)) = true) ->
-  fields_ok e = true -> query_params_ok e = true -> command_params_ok e = true -> compile e = expand e.
+  fields_ok e = true -> query_params_ok e = true -> command_params_ok e = true -> convert e = expand e.
 Proof.
-  intros e HU Hok Hq Hc. unfold compile, expand.
+  intros e HU Hok Hq Hc. unfold convert, expand.
   destruct (default_filters e _) as [fl|]; [|reflexivity].
   destruct (nodup_bytes _); [|reflexivity]. now rewrite (expand_closed e fl (HU fl)), Hok, Hq, Hc.
 Qed.
 
-(* the only compile errors the expansion itself can cause are in the user's own fields: an
+(* the only convert errors the expansion itself can cause are in the user's own fields: an
    object reference that names nothing, an optional/required clash, a path parameter that is
    not a request field; a reference made by entity.go is never the cause *)
 Theorem compile_errors : forall e cs, expand e = Ok cs ->
-  compile e = if user_refs_ok e (defined cs) then
+  convert e = if user_refs_ok e (defined cs) then
                 if fields_ok e then
                   if query_params_ok e && command_params_ok e then Ok cs
                   else Err "missing field in request"
                 else Err "cannot be both required and optional"
               else Err "type not found".
 Proof.
-  intros e cs H. unfold compile. rewrite H.
+  intros e cs H. unfold convert. rewrite H.
   unfold expand in H. destruct (default_filters e _) as [fl|]; [|discriminate].
   destruct (nodup_bytes _); [|discriminate]. inversion H; subst.
   destruct (user_refs_ok e (defined (expand_with e fl))) eqn:EU.
@@ -640,21 +650,21 @@ Theorem keys_in_declaration_order : forall e,
   map f_json (m_fields (keys_msg e)) = map (fun k => uf_name (k_def k)) (e_keys e).
 Proof.
   intros e. unfold keys_msg. cbn [m_fields]. rewrite map_map. apply map_ext.
-  intros [[n [pt k|nm|nm|nm|p f t] r o] s]; reflexivity.
+  intros [[n [pt k|nm|nm|nm|p f t|tn k|i|i] r o] s]; reflexivity.
 Qed.
 
 Theorem primary_keys_required : forall e f,
   In f (m_fields (keys_msg e)) -> f_primary f = true -> f_required f = true.
 Proof.
   intros e f Hf Hp. unfold keys_msg in Hf. cbn [m_fields] in Hf.
-  apply in_map_iff in Hf. destruct Hf as [[[n [pt k|nm|nm|nm|p fk t] r o] s] [<- _]]; cbn in *; try discriminate.
+  apply in_map_iff in Hf. destruct Hf as [[[n [pt k|nm|nm|nm|p fk t|tn k|i|i] r o] s] [<- _]]; cbn in *; try discriminate.
   subst p. apply orb_true_r.
 Qed.
 
 Definition primary_keys (e : entity) : list ufield := filter is_primary (map k_def (e_keys e)).
 
 Lemma primary_is_key : forall u, is_primary u = true -> is_key_field u = true.
-Proof. intros [n [pt k|nm|nm|nm|p f t] r o] H; try discriminate; reflexivity. Qed.
+Proof. intros [n [pt k|nm|nm|nm|p f t|tn k|i|i] r o] H; try discriminate; reflexivity. Qed.
 
 (* the primary keys are, in declaration order, among the Get/Events path keys ... *)
 Theorem get_keys_primary : forall e, filter is_primary (get_keys e) = primary_keys e.
@@ -1085,13 +1095,14 @@ Qed.
 Lemma ref_resolves_mono : forall D D' t,
   incl D D' -> ref_resolves D t = true -> ref_resolves D' t = true.
 Proof.
-  intros D D' t Hi H. unfold ref_resolves in *.
+  intros D D' t Hi.
   assert (L : forall (b : bool) n,
             existsb (fun d => Bool.eqb (fst d) b && bytes_eqb (snd d) n) D = true ->
             existsb (fun d => Bool.eqb (fst d) b && bytes_eqb (snd d) n) D' = true).
   { intros b n Hx. apply existsb_exists in Hx. destruct Hx as [d [Hd Hp]].
     apply existsb_exists. exists d. split; [now apply Hi|assumption]. }
-  destruct t as [pt k|p n|p n|p n]; [reflexivity| | |]; destruct p; try assumption; now apply L.
+  induction t as [pt k|p n|p n|p n|tn k|v IH]; intros H; cbn [ref_resolves] in *;
+    [reflexivity| | | |reflexivity|now apply IH]; destruct p; try assumption; now apply L.
 Qed.
 
 Lemma closed_app : forall a b, closed a = true -> closed b = true -> closed (a ++ b) = true.
@@ -1104,31 +1115,31 @@ Proof.
     eapply ref_resolves_mono; [|exact Hb]. apply incl_appr, incl_refl.
 Qed.
 
-Lemma compile_ok_inv : forall e cs, compile e = Ok cs -> expand e = Ok cs /\ closed cs = true.
+Lemma compile_ok_inv : forall e cs, convert e = Ok cs -> expand e = Ok cs /\ closed cs = true.
 Proof.
-  intros e cs H. unfold compile in H. destruct (expand e) as [c| | |] eqn:E; try discriminate.
+  intros e cs H. unfold convert in H. destruct (expand e) as [c| | |] eqn:E; try discriminate.
   destruct (closed c) eqn:Ec; [|discriminate]. destruct (fields_ok e); [|discriminate].
   destruct (query_params_ok e && command_params_ok e); [|discriminate]. inversion H; subst. auto.
 Qed.
 
 (* a file of entities compiles to the concatenation of the entities' own expansions ... *)
-Theorem compile_all_inv : forall es cs, compile_all es = Ok cs ->
-  exists l, Forall2 (fun e c => compile e = Ok c) es l /\ cs = concat l.
+Theorem compile_all_inv : forall es cs, convert_all es = Ok cs ->
+  exists l, Forall2 (fun e c => convert e = Ok c) es l /\ cs = concat l.
 Proof.
-  induction es as [|e r IH]; intros cs H; cbn [compile_all] in H.
+  induction es as [|e r IH]; intros cs H; cbn [convert_all] in H.
   - inversion H. exists []. split; [constructor|reflexivity].
-  - destruct (compile e) as [a| | |] eqn:Ea; try discriminate.
-    destruct (compile_all r) as [b| | |] eqn:Eb; try discriminate. inversion H; subst.
+  - destruct (convert e) as [a| | |] eqn:Ea; try discriminate.
+    destruct (convert_all r) as [b| | |] eqn:Eb; try discriminate. inversion H; subst.
     destruct (IH b eq_refl) as [l [HF ->]]. exists (a :: l). split; [constructor; assumption|reflexivity].
 Qed.
 
 (* ... which is closed as a whole: an entity's references never depend on its neighbours *)
-Theorem compile_all_closed : forall es cs, compile_all es = Ok cs -> closed cs = true.
+Theorem compile_all_closed : forall es cs, convert_all es = Ok cs -> closed cs = true.
 Proof.
-  induction es as [|e r IH]; intros cs H; cbn [compile_all] in H.
+  induction es as [|e r IH]; intros cs H; cbn [convert_all] in H.
   - inversion H. reflexivity.
-  - destruct (compile e) as [a| | |] eqn:Ea; try discriminate.
-    destruct (compile_all r) as [b| | |] eqn:Eb; try discriminate. inversion H; subst.
+  - destruct (convert e) as [a| | |] eqn:Ea; try discriminate.
+    destruct (convert_all r) as [b| | |] eqn:Eb; try discriminate. inversion H; subst.
     apply closed_app; [exact (proj2 (compile_ok_inv e a Ea))|now apply IH].
 Qed.
 
